@@ -380,6 +380,58 @@ def family_programs():
                    [("pos", L(5))]),
                   ("pipe", L(5), V("inc"), []),
                   ("pipe", ("pipe", L(5), V("inc"), []), V("dbl"), [])])])))
+    # receiver expressions with effects are evaluated exactly once
+    counter_obj = ("obj", [("n", L(0)),
+                           ("inc", ("fn", [("self", None, False),
+                                           ("k", L(1), False)],
+                                    ("seq", [("log", ("list", [
+                                        L("inc"), ("member", V("self"),
+                                                   "n"), V("k")])),
+                                        V("self")])))])
+    progs.append(("receiver", ("seq", [
+        ("def", "made", L(0)),
+        ("def", "make", ("fn", [], ("seq", [
+            ("assign", "made", ("bin", "+", V("made"), L(1))),
+            ("log", ("list", [L("make"), V("made")])),
+            ("obj", [("tag", V("made")),
+                     ("show", ("fn", [("self", None, False),
+                                      ("p", L("d"), False)],
+                               ("list", [("member", V("self"), "tag"),
+                                         V("p")])))])])), True),
+        ("list", [("mcall", ("call", V("make"), []), "show", []),
+                  ("mcall", ("call", V("make"), []), "show",
+                   [("pos", L("x"))]),
+                  V("made")])])))
+    progs.append(("receiver", ("seq", [
+        ("def", "o", counter_obj),
+        ("def", "pick", ("fn", [], ("seq", [("log", L("pick")), V("o")])),
+         True),
+        ("mcall", ("mcall", ("mcall", ("call", V("pick"), []), "inc", []),
+                   "inc", [("pos", L(10))]), "inc", [("named", "k", L(5))]),
+        ("log", L("done"))])))
+    progs.append(("receiver", ("seq", [
+        ("def", "objs", ("list", [("obj", [("name", L("A")),
+                                          ("who", ("fn", [("self", None,
+                                                           False)],
+                                                   ("member", V("self"),
+                                                    "name")))]),
+                                  ("obj", [("name", L("B")),
+                                           ("who", ("fn", [("self", None,
+                                                            False)],
+                                                    ("member", V("self"),
+                                                     "name")))])])),
+        ("def", "i", L(-1)),
+        ("def", "nxt", ("fn", [], ("seq", [
+            ("assign", "i", ("bin", "+", V("i"), L(1))),
+            ("index", V("objs"), V("i"))])), True),
+        ("list", [("mcall", ("call", V("nxt"), []), "who", []),
+                  ("mcall", ("call", V("nxt"), []), "who", []), V("i")])])))
+    # the piped value and arguments are evaluated once, left to right
+    progs.append(("receiver", ("seq", [
+        ("def", "f", ("fn", [("a", None, False), ("b", None, False)],
+                      ("list", [V("a"), V("b")])), True),
+        ("pipe", ("seq", [("log", L("lhs")), L(1)]), V("f"),
+         [("pos", ("seq", [("log", L("arg")), L(2)]))])])))
     # parameters shadow globals; assignment to a parameter stays local
     progs.append(("params", ("seq", [
         ("def", "x", L(1)),
